@@ -110,6 +110,7 @@ SCEN_DESC = {
     'ioext': 'the rest of the socket API: split() full duplex (tcp / unix, four parties on one connection), peek / read alternation, connect_timeout against a listener whose accept queue is full (TimedOut, never early, never hanging) and then a live one, CoIo over a std socket, a caller-driven wait_io loop',
     'cvpoison': 'condvar waiters (wait / wait_timeout / wait_while, threads and coroutines) whose notifier sets the flag, notifies and panics under the lock: every wait returns holding the mutex (occupancy monitor over the guards taken out of the PoisonError and over later lock sections), the poisoned mutex stays usable',
     'iotrace': 'no-hook stress: one-byte request / answer loop (tcp / unix) with a 300 ms read time-out on the requesting side, 12 000 rounds per execution, the read starts 0-1500 spins after the request: TimedOut only if the answer was written less than 150 ms before',
+    'iocanshare': 'the target waited on a socket before and now blocks in a channel / park / semaphore while another coroutine is blocked on that same socket: a cancel must reach the target, the other coroutine neither ends nor observes a cancellation and still gets the next datagram',
     'yieldspin': 'every worker kept busy by coroutines that only yield until a flag is set; the flag is set by a coroutine that becomes ready from outside the workers (sleep ends, unparked / spawned / sent to / posted to by a thread); verdict in logical steps: yields executed after the waker returned',
     'yieldspinio': 'the same with readiness through the selector: a datagram sent by a thread, an io time-out that expires',
     'iocant': 'cancel of a *timed* recv on a shared socket that lives on: later timed recvs must neither fail early nor lose their datagram',
